@@ -34,7 +34,8 @@ def gen_scenario(rng, ver=None, nacc=None, nops=None, twins=False, dao_bias=0.25
     """multi-account history across the lock periods: stakes, partial/full unstakes, BP votes
     with overlapping candidate sets and equal tallies, parameter votes, block boundaries
     that straddle StakingDelay/VotingDelay, node restarts."""
-    ver = ver if ver is not None else rng.choice([1, 2, 2, 3, 4])
+    ver = ver if ver is not None else rng.choice([1, 1, 2, 2, 3, 4])
+    ver0 = ver
     nacc = nacc or rng.randrange(2, 6)
     nops = nops or rng.randrange(8, 28)
     ncand = rng.randrange(2, 7)
@@ -81,7 +82,11 @@ def gen_scenario(rng, ver=None, nacc=None, nops=None, twins=False, dao_bias=0.25
         elif r < 0.93:
             step = rng.choice([1, 1, 2, DELAY - 2, DELAY - 1, DELAY, DELAY + 1, 2 * DELAY])
             no += step
-            ops.append({"op": "block", "no": no})
+            blk = {"op": "block", "no": no}
+            if ver < 4 and rng.random() < 0.12:      # the chain crosses a hardfork height
+                ver += 1
+                blk["ver"] = ver
+            ops.append(blk)
             if rng.random() < 0.15:
                 ops.append({"op": "reload"})
         else:
@@ -90,7 +95,7 @@ def gen_scenario(rng, ver=None, nacc=None, nops=None, twins=False, dao_bias=0.25
     no += 1
     ops.append({"op": "block", "no": no})
     ops.append({"op": "reload"})
-    return {"ver": ver, "bpcount": 3, "start": 1, "accounts": accounts, "ops": ops}
+    return {"ver": ver0, "bpcount": 3, "start": 1, "accounts": accounts, "ops": ops}
 
 
 def gen_crossing_scenario(rng):
@@ -131,6 +136,51 @@ def gen_crossing_scenario(rng):
             ops.append({"op": "reload"})
     ops.append({"op": "block", "no": no + 1})
     return {"ver": ver, "bpcount": 3, "start": 1, "accounts": accounts, "ops": ops}
+
+
+def gen_fork_scenario(rng):
+    """histories that CROSS hardfork heights: stakes and BP ballots under version 1 (no voting power
+    rank before V2), then — after the lock period, under version 2, later 3 / 4 — partial unstakes,
+    additional stakes, re-votes and parameter votes by the same accounts and by new ones"""
+    nacc = rng.randrange(2, 5)
+    accounts = [{"addr": addr(i).hex(), "bal": str(20 * S)} for i in range(nacc)]
+    ops, no, ver = [], 1, 1
+    stake = {}
+    for w in range(nacc):
+        if rng.random() < 0.8:
+            stake[w] = rng.choice([S, 2 * S, 3 * S])
+            ops.append({"op": "stake", "who": w, "amt": str(stake[w])})
+    no += 1
+    ops.append({"op": "block", "no": no})
+    for w in stake:
+        if rng.random() < 0.85:
+            ops.append({"op": "votebp", "who": w, "cands": [cand(rng.randrange(3)).hex() for _ in range(rng.randrange(1, 3))]})
+    for nv in (2, rng.choice([2, 3]), rng.choice([3, 4])):
+        no += DELAY + rng.choice([0, 1, 5])
+        blk = {"op": "block", "no": no}
+        if nv != ver:
+            blk["ver"] = nv
+            ver = nv
+        ops.append(blk)
+        for w in range(nacc):
+            r = rng.random()
+            if w in stake and r < 0.35 and stake[w] > S:
+                ops.append({"op": "unstake", "who": w, "amt": str(S)})
+                stake[w] -= S
+            elif r < 0.6:
+                ops.append({"op": "stake", "who": w, "amt": str(S)})
+                stake[w] = stake.get(w, 0) + S
+            elif w in stake and r < 0.85:
+                ops.append({"op": "votebp", "who": w, "cands": [cand(rng.randrange(3)).hex()]})
+            elif w in stake:
+                ops.append({"op": "votedao", "who": w, "id": rng.choice(["BPCOUNT", "GASPRICE"]), "val": [rng.choice(["5", "13", "60000000000"])]})
+        no += 1
+        ops.append({"op": "block", "no": no})
+        if rng.random() < 0.5:
+            ops.append({"op": "reload"})
+    ops.append({"op": "block", "no": no + 1})
+    ops.append({"op": "reload"})
+    return {"ver": 1, "bpcount": 3, "start": 1, "accounts": accounts, "ops": ops}
 
 
 def exhaustive_family(length=3):
@@ -294,7 +344,14 @@ def scenario_to_coq(sc, dumps, fixed):
            "d_vtotals := []; d_params := []; d_vpr := [] |}") % (bal, cz(d0["sysbal"]))
     mem = "{| m_pcur := []; m_pnext := []; m_vpr := vpr_empty |}"
     g = "{| g_no := %d; g_d := %s; g_m := %s |}" % (sc["start"], dur, mem)
-    ops = clist("(%s,\n   %s)" % (op_to_coq(o), dump_to_coq(d, addr_index)) for o, d in zip(sc["ops"], dumps[1:]))
+    vers, v = [], sc["ver"]
+    for o in sc["ops"]:
+        if o["op"] == "block" and o.get("ver"):
+            vers.append(v)          # the boundary itself is executed under the old version (no effect on a block op)
+            v = o["ver"]
+        else:
+            vers.append(v)
+    ops = clist("(%d,(%s,\n   %s))" % (vv, op_to_coq(o), dump_to_coq(d, addr_index)) for vv, o, d in zip(vers, sc["ops"], dumps[1:]))
     return "(%s,\n %s,\n %s)" % (cfg, g, ops)
 
 
